@@ -664,6 +664,14 @@ def rule_N1(ctx):
         params = f.params()
         needs = _assert_needs(a.test, params)
         if needs is None:
+            # an assertion about locals of the function itself (e.g. a helper's precondition after the helper was folded into its
+            # caller): discharged by the function's own dominating guards
+            local_names = [y.id for y in ast.walk(a.test) if isinstance(y, ast.Name) and y.id not in params and y.id != 'len']
+            loc_needs = _assert_needs(a.test, local_names) if local_names else None
+            if loc_needs and all(need <= facts_before(f, v, a.lineno, node=a) for v, need in loc_needs.items()):
+                r.ok(f'{f.key}: {txt}', {'instance': f.key, 'assert': txt, 'verdict': 'established by the guards of the same function'})
+                continue
+        if needs is None:
             r.fail(f.key, f'assert {txt}', 'this assertion is neither of a shape the fact engine understands nor justified in the reason table: '
                    'if a public call can violate it the user sees AssertionError', loc=f.loc(a))
             continue
